@@ -17,11 +17,12 @@ Next == /\ Len(pool) < K
                                 /\ pool' = Append(pool, [f |-> t[1], r |-> t[2], b |-> Len(pool) + 1])
 Spec == Init /\ [][Next]_pool
 
-RingList == SetToSeq(Rings(pool))
 Emit == Len(pool) >= 1 =>
+    LET R == Rings(pool)
+        rl == SetToSeq(R) IN
     CSVWrite("%1$s", <<ToJson([m |-> M, pool |-> pool,
-                               rings |-> [i \in 1..Len(RingList) |-> [j \in 1..Len(RingList[i]) |-> [i |-> RingList[i][j][1], d |-> RingList[i][j][2]]]],
-                               molecules |-> Cardinality(Molecules(pool)),
+                               rings |-> [i \in 1..Len(rl) |-> [j \in 1..Len(rl[i]) |-> [i |-> rl[i][j][1], d |-> rl[i][j][2]]]],
+                               molecules |-> Cardinality({Spellings(p) : p \in R}),
                                diverges |-> AsBuiltDiverges(pool)])>>, IOEnv.OUTFILE)
 
 (* supplying fragment k the other way round does not change the set of molecules *)
